@@ -71,7 +71,9 @@ func (r *Row) Add(c Cell) *Row {
 	ptr := &r.cells[column-1]
 	ptr.inRow = r
 	ptr.columnNum = column
-	invokePropertyCallbacks(r.rowCellCallbacks, CB_AT_ADD, ptr, r.ErrorContainer)
+	// errors go via the row, which creates its container on demand before
+	// the row joins a table and forwards to the table afterwards
+	invokePropertyCallbacks(r.rowCellCallbacks, CB_AT_ADD, ptr, r)
 	return r
 }
 
